@@ -2,16 +2,22 @@ package props
 
 import (
 	"fmt"
+	"github.com/gdamore/tcell/v2"
 	"os"
+	"runtime"
 	"strings"
 	"sync"
+	"sync/atomic"
+	"time"
+	"verif/census"
+	"verif/vt"
 
 	"verif/core"
 	"verif/shadow"
 )
 
 func init() {
-	register("C01", func(r *core.Run) { screenProps(r, "C01") })
+	register("C01", func(r *core.Run) { screenProps(r, "C01"); c01flip(r) })
 	register("C13", func(r *core.Run) { screenProps(r, "C13") })
 }
 
@@ -92,9 +98,9 @@ func screenProps(r *core.Run, prop string) {
 			se := sessions[si]
 			for hi := 0; hi < nh; hi++ {
 				rg := r.Rand(phase, se.label(), hi)
-				w, h, ops := shadow.Gen(rg, shadow.GenOpts{MaxW: 16, MaxH: 6, Urls: true})
+				w, h, ops := shadow.Gen(rg, shadow.GenOpts{MaxW: 16, MaxH: 6, Urls: true, SuspendResume: true, WriteFail: prop == "C13"})
 				if !r.Quick() && hi%3 == 0 {
-					w, h, ops = shadow.Gen(rg, shadow.GenOpts{MaxW: 40, MaxH: 12, Urls: true})
+					w, h, ops = shadow.Gen(rg, shadow.GenOpts{MaxW: 40, MaxH: 12, Urls: true, SuspendResume: true, WriteFail: prop == "C13"})
 				}
 				st := &execStats{}
 				v := execHistory(se, w, h, ops, execOpts{props: armed, stats: st})
@@ -148,4 +154,102 @@ func screenProps(r *core.Run, prop string) {
 	run(sessionsFor("nodirect"), "nodirect")
 	nh = nhSave
 	os.Unsetenv("TCELL_TRUECOLOR")
+}
+
+// c01flip: "after the terminal reports a new size, the same holds even if the terminal's previous
+// contents were arbitrary", for size reports that coalesce: the window goes A -> B -> A (contents
+// re-flowed, i.e. arbitrary) while the main loop cannot look (another goroutine is inside Show on
+// a slow terminal), so that by the time it handles the notification the size is the one it knew.
+// The verdict is taken once the library is structurally idle.
+func c01flip(r *core.Run) {
+	for _, name := range []string{"xterm-256color", "vt220", "linux"} {
+		for round := 0; round < r.Pick(1, 8); round++ {
+			ti := Pristine(name)
+			const W, H = 14, 6
+			term := vt.New(W, H)
+			term.Acs = vt.BuildAcs(ti.AltChars)
+			ls, err := startScreen(ti, W, H, func(b []byte) { term.Feed(b) })
+			if err != nil {
+				r.Inconclusive(err.Error())
+				return
+			}
+			s := ls.s
+			want := func(x, y int) rune { return rune('a' + (x+y*3+round)%26) }
+			ls.tty.BeginApp()
+			for y := 0; y < H; y++ {
+				for x := 0; x < W; x++ {
+					s.SetContent(x, y, want(x, y), nil, tcell.StyleDefault)
+				}
+			}
+			s.Show()
+			ls.tty.EndApp()
+			for ls.s.HasPendingEvent() {
+				ls.s.PollEvent()
+			}
+			// another goroutine of the application is inside Show on a slow terminal
+			atomic.StoreInt64(&ls.tty.WriteDelayNS, int64(150*time.Millisecond))
+			shown := make(chan struct{})
+			go func() {
+				ls.tty.BeginApp()
+				s.SetContent(0, 0, 'Z', nil, tcell.StyleDefault)
+				s.Show()
+				ls.tty.EndApp()
+				close(shown)
+			}()
+			stalled := false
+			for i := 0; i < 400000 && !stalled; i++ {
+				stalled = atomic.LoadInt32(&ls.tty.InDelay) > 0
+				runtime.Gosched()
+			}
+			// the window changes and changes back; the terminal re-flows its contents
+			w2, h2 := W-5+round%3, H-2
+			ls.tty.Locked(func() { term.Resize(w2, h2) })
+			ls.tty.SetSize(w2, h2)
+			ls.tty.NotifyNow()
+			ls.tty.Locked(func() { term.Resize(W, H) })
+			ls.tty.SetSize(W, H)
+			scribble(ls.tty, term, '?')
+			ls.tty.NotifyNow()
+			atomic.StoreInt64(&ls.tty.WriteDelayNS, 0)
+			<-shown
+			// wait until the library has nothing left to do
+			idle := false
+			for try := 0; try < 10 && !idle; try++ {
+				s1, a1 := census.Parked(census.Dump(), nil)
+				time.Sleep(300 * time.Millisecond)
+				s2, a2 := census.Parked(census.Dump(), nil)
+				idle = a1 && a2 && len(s1) > 0 && strings.Join(s1, ",") == strings.Join(s2, ",")
+			}
+			bad := ""
+			if idle && stalled {
+				ls.tty.Locked(func() {
+					for y := 0; y < H && bad == ""; y++ {
+						for x := 0; x < W; x++ {
+							w := want(x, y)
+							if x == 0 && y == 0 {
+								w = 'Z'
+							}
+							if c := term.At(x, y); c.R != w {
+								bad = fmt.Sprintf("cell (%d,%d) shows %q, the application's content there is %q", x, y, c.R, w)
+								break
+							}
+						}
+					}
+				})
+			}
+			ls.fini()
+			switch {
+			case !stalled || !idle:
+				r.Count("flip_rounds_not_judged", 1)
+				r.Case("")
+			default:
+				r.Case(fmt.Sprintf("flip|%s|%d", name, round))
+				r.Count("flip_rounds", 1)
+				if bad != "" {
+					r.Violate("resize:coalesced-size-reports", fmt.Sprintf("%s %dx%d: the window went to %dx%d and back (two size reports, terminal contents re-flowed) while another goroutine was inside Show; once the library is idle %s", name, W, H, w2, h2, bad), nil)
+					return
+				}
+			}
+		}
+	}
 }
